@@ -718,6 +718,7 @@ impl AssetExpr {
         match &self.policy {
             Expression::None => None,
             Expression::Bytes(x) => Some(x.as_slice()),
+            Expression::Hash(x) => Some(x.as_slice()),
             _ => None,
         }
     }
